@@ -8,8 +8,9 @@ ASSUMPTIONS = [
     'hand-over: real PLSSDesc on 6 concrete texts; the channel by which copy_all is requested (init keyword, config string, '
     '.config assignment, parse(layout=) with commit on/off) and other settings are symbolic choices',
     'fallback: provenance-document harness shared with C03 (contract finder patterns); a fallback is expected whenever the document '
-    'has no Twp/Rge segment or no section segment; "the entire text" is compared up to the leading / trailing separators and '
-    'cull words that clean-up removes when the layout was deduced',
+    'has no Twp/Rge segment or no section segment; then the layout is deduced as copy_all and the description must equal the text '
+    'up to outer white space (stripped by the real preprocessor, not by the stand-in); "carries the complete text" in the '
+    'never-two-tracts clause is judged up to the separators and cull words that clean-up removes',
 ]
 EXPLANATION = ('CrossHair explores the real layout hand-over (PLSSDesc -> PLSSParser -> ChunkParser) and the copy_all / fallback '
                'branches of ChunkParser over the bounded document family; on each path: exactly one tract with the whole text when '
